@@ -2,7 +2,7 @@
 import math
 import numpy as np
 from lib import common, cards, refconv
-from corr import interp
+from corr import interp, assembly
 
 LEVEL = "proof"
 TRUSTED = ["Coq 8.16.1 kernel + vm_compute; Coquelicot (axioms of the reals, funext, classic as printed)",
@@ -151,6 +151,12 @@ def run(chk):
         chk.violation("plan:%s" % ("lowest-node" if b["x"] == b["grid"][0] else "node" if b["on_node"] else "between"),
                       "conv.convolution(rsl, x=%r, p_%d) on grid %s (degree %d, log=%s, reg=%s, sing=%s) does not follow the plan of the model: p(x) used = %r, quadratures = %d %s"
                       % (b["x"], b["j"], b["grid"], b["degree"], b["log"], b["has_reg"], b["has_sing"], b["result"], b["quad_calls"], b.get("problem", "")), dict(plan=b))
+    bad_a = assembly.run_assembly(chk, 40 if quick else 400)
+    chk.oblige("correspondence compute_local (factor = convolution point, blow-up to flavour space, accumulation: the real assembly step = the model)", not bad_a, str(bad_a[:1])[:600])
+    for b in bad_a[:2]:
+        chk.violation("assembly:%s" % ("cp!=x" if b["cp"] != b["x"] else "cp=x"),
+                      "compute_local with one kernel (orders %s, convolution point %s, x = %s, pto %d) does not give weight * convolution point * (C (x) p_j): keys %s %s"
+                      % (b["orders"], b["cp"], b["x"], b["pto"], b["keys"], b["error"] or ""), dict(assembly=b))
     patrol(chk, 12 if quick else 60)
     operator_patrol(chk, 4 if quick else 40)
     if chk.red() and not chk.violations:
